@@ -101,6 +101,15 @@ macro_rules! bf_atomic_real {
         ) -> Option<Result<Value, String>> {
             let len = BitFieldSliceCore::<A>::len(a);
             let r = match name {
+                // "via": "helper": the same call through the AtomicHelper blanket trait (get / set without suffix)
+                "a_get" if op.get("via").and_then(|v| v.as_str()) == Some("helper") => {
+                    guard(|| sux::traits::bit_field_slice::AtomicHelper::<Wd>::get(a, get_usize(op, "i"), Ordering::Relaxed))
+                        .map(|r| json!({"res": vj(r)}))
+                }
+                "a_set" if op.get("via").and_then(|v| v.as_str()) == Some("helper") => guard(|| {
+                    sux::traits::bit_field_slice::AtomicHelper::<Wd>::set(a, get_usize(op, "i"), val(&op["v"]), Ordering::Relaxed)
+                })
+                .map(|_| json!({})),
                 "a_get" => guard(|| a.get_atomic(get_usize(op, "i"), Ordering::Relaxed)).map(|r| json!({"res": vj(r)})),
                 "a_get_unchecked" => {
                     let i = get_usize(op, "i");
